@@ -20,6 +20,7 @@ THEOREMS = [
     "Mtv.C13.wrappers_match",
     "Mtv.C13.nothing_extra_partial",
     "Mtv.C13.methods_match",
+    "Mtv.C13.enum_constants_named",
 ]
 RULE_E2E = (" End-to-end clause (harness/cmd/vh/c13e2e.go): the REAL methods of *telegram.Client, found by reflection, are called on a "
             "client that resumed a stored session and talks over loopback TCP to a scripted peer. Every method that has a schema function "
@@ -50,7 +51,9 @@ RULE = ("programs = rows of the regenerated tables: every definition of schemes/
         "names against the Go field names position by position), every "
         "registered constructor (reflection over the built tree: the codec's layout, and every field of the struct with "
         "its tag as written), every generated client method and hand-written wrapper (go/parser: request literal, call, "
-        "assertion, and the statement skeleton of the body). Each row is compared by the Lean kernel (per-chunk decide +kernel obligations); the "
+        "assertion, and the statement skeleton of the body), every constant of an enum type of package telegram BY NAME and every case of "
+        "the String() methods (go/parser over the non-test files of telegram/: the constant named after an enum member of the schema "
+        "carries that member's id; String() gives the schema's name for the id). Each row is compared by the Lean kernel (per-chunk decide +kernel obligations); the "
         "compiled driver names the rows for which an obligation fails. distinct = number of rows")
 
 KINDS = {
@@ -73,6 +76,10 @@ KINDS = {
     "field-tag": "the struct tag of the field is not literally the text of its flag (tl:\"flag:N\" / "
                  "tl:\"flag:N,encoded_in_bitflags\" / none)",
     "extra": "registered type that no schema line defines",
+    "enum-const": "the Go constant named after this enum member of the schema does not carry the member's id (member:Constant=id it "
+                  "carries), is missing or exists twice; or a constant of an enum type is named after no member; or a String() case "
+                  "returns another name than the schema's for the id - every use of the constant BY NAME sends / recognises another "
+                  "constructor, while the ids registered under the enum type are unchanged",
 }
 
 
@@ -167,6 +174,8 @@ def run(ctx):
             ctx.report_unexplained("join-table counts no longer check", rep)
         if rep.get("fieldtable") == "false" and not any(rep.get(k, "-") not in ("-", "") for k in ("extra-field", "field-tag")):
             ctx.report_unexplained("the table of all struct fields does not line up with the registry (rows, ids)", rep)
+        if rep.get("enumtables") == "false" and rep.get("enum-const", "-") in ("-", ""):
+            ctx.report_unexplained("the tables of enum constants / String() cases do not line up with the schema's enum members", rep)
         if rep.get("nametable") == "false":
             ctx.report_unexplained("the field-name table is not the registry's (rows, ids, field counts or texts differ)", rep)
         if rep.get("dupids") == "true":
@@ -177,7 +186,7 @@ def run(ctx):
         except ValueError:
             pass
         ctx.samples = [{"row": "inputPeerUser#7b8e7de6 user_id:int access_hash:long = InputPeer  <->  telegram.InputPeerUser{UserID int32; AccessHash int64}"},
-                       {"driver_report": {k: rep.get(k) for k in list(KINDS) + ["counts", "dupids", "nametable", "fieldtable", "ndefs", "nreg", "nmethods"]}}]
+                       {"driver_report": {k: rep.get(k) for k in list(KINDS) + ["counts", "dupids", "nametable", "fieldtable", "enumtables", "ndefs", "nreg", "nmethods"]}}]
     e2e(ctx)
     concrete = [v for v in ctx.violations if not v.get("no_input")]
     if not ok and not concrete:
